@@ -92,7 +92,7 @@ OpenInos(st) == {st.h[i].ino : i \in {j \in DOMAIN st.h : st.h[j].open}}
 \* garbage collection: an inode without name and without open handle disappears;
 \* a directory that lost its name is empty (rmdir needs it empty, removeall empties it).
 Gc(st) ==
-    LET keep == Reachable(st) \cup {i \in OpenInos(st) : i \in DOMAIN st.ino}
+    LET keep == Reachable(st) \cup {i \in OpenInos(st) \cup Range(st.cwd) : i \in DOMAIN st.ino}
         live == Reachable(st) IN
     [st EXCEPT !.ino = [i \in keep |->
         IF i \notin live /\ st.ino[i].k = "dir" THEN [st.ino[i] EXCEPT !.ent = EmptyFn] ELSE st.ino[i]]]
@@ -615,6 +615,9 @@ EntryOf(st, pp, ap) ==
 \* the tree as seen through Lstat / ReadDir / ReadFile / Readlink / SameFile
 Proj(st) == LET ap == AllPaths(st) IN {EntryOf(st, pp, ap) : pp \in ap}
 
-CwdPath(st) == [abs |-> TRUE, parts |-> st.cwdn]
+\* what Getwd shows; a removed working directory has no path any more
+CwdPath(st) ==
+    IF Last(st.cwd) \in Reachable(st) THEN [abs |-> TRUE, parts |-> st.cwdn]
+    ELSE [abs |-> FALSE, parts |-> <<"GETWD-ENOENT">>]
 
 =============================================================================
